@@ -109,92 +109,101 @@ func ruleMapOrder(c *Ctx) []*Obligation {
 	add := c.MustFunc(pkgUtil, "CharReferenceMap", "AddInterval")
 	look := c.MustFunc(pkgUtil, "CharReferenceMap", "Lookup")
 	key := "utilities.CharReferenceMap#otherIntervals#insert-vs-search"
-	// insertion end
-	insert := ""
-	for _, b := range add.Blocks {
-		for _, in := range b.Instrs {
-			st, ok := in.(*ssa.Store)
-			if !ok {
-				continue
+	// AddInterval and Lookup evaluated abstractly above the table boundary: two registrations A then B
+	// are made (each creating one interval object); Lookup must answer with B's reference where both
+	// cover the character, with A's where only A does, with B's where only B does, with nil for neither.
+	const ch = 0x0300
+	register := func(list aiVal, name string) (aiVal, string) {
+		ai := &absInterp{c: c, fn: add, env: map[ssa.Value]aiVal{}, fields: map[string]aiVal{"otherIntervals": list}}
+		if len(add.Params) >= 4 {
+			ai.env[add.Params[1]] = aiInt(0x0200)
+			ai.env[add.Params[2]] = aiInt(0x0400)
+			ai.env[add.Params[3]] = aiSym("ref" + name)
+		}
+		ai.inline = func(g *ssa.Function) bool { return recvNamedFn(g) == "CharReferenceMap" }
+		ai.call = func(ai *absInterp, call *ssa.Call) (aiVal, bool) {
+			if f := calleeObj(call.Common()); f != nil && f.Name() == "NewCharReferenceInterval" {
+				return aiSym("interval" + name), true
 			}
-			fa, ok := st.Addr.(*ssa.FieldAddr)
-			if !ok || fieldName(fa.X.Type(), fa.Field) != "otherIntervals" {
-				continue
+			return aiVal{}, false
+		}
+		out := ai.run(add.Blocks[0], nil, 0)
+		if out.kind != "return" {
+			return aiVal{}, "AddInterval: " + out.why
+		}
+		l := ai.fields["otherIntervals"]
+		if l.kind != "list" {
+			return aiVal{}, "AddInterval does not keep the intervals in a list the model can follow"
+		}
+		return l, ""
+	}
+	lookup := func(list aiVal, inA, inB bool) (string, string) {
+		ai := &absInterp{c: c, fn: look, env: map[ssa.Value]aiVal{}, fields: map[string]aiVal{"otherIntervals": list}}
+		if len(look.Params) >= 2 {
+			ai.env[look.Params[1]] = aiInt(ch)
+		}
+		ai.inline = func(g *ssa.Function) bool { return recvNamedFn(g) == "CharReferenceMap" }
+		ai.call = func(ai *absInterp, call *ssa.Call) (aiVal, bool) {
+			f := calleeObj(call.Common())
+			if f == nil || recvNamed(f) != "CharReferenceInterval" {
+				return aiVal{}, false
 			}
-			call, ok := st.Val.(*ssa.Call)
-			if !ok {
-				continue
-			}
-			bi, ok := call.Call.Value.(*ssa.Builtin)
-			if !ok || bi.Name() != "append" {
-				continue
-			}
-			isOld := func(v ssa.Value) bool {
-				ld, ok := v.(*ssa.UnOp)
-				if !ok {
-					return false
+			iv := ai.get(call.Common().Args[0])
+			switch f.Name() {
+			case "InRange":
+				if iv.kind == "sym" {
+					return aiBool((iv.s == "intervalA" && inA) || (iv.s == "intervalB" && inB)), true
 				}
-				fa2, ok := ld.X.(*ssa.FieldAddr)
-				return ok && fieldName(fa2.X.Type(), fa2.Field) == "otherIntervals"
+			case "Reference":
+				if iv.kind == "sym" {
+					return aiSym("ref" + strings.TrimPrefix(iv.s, "interval")), true
+				}
 			}
-			switch {
-			case isOld(call.Call.Args[1]) && !isOld(call.Call.Args[0]):
-				insert = "prepend"
-			case isOld(call.Call.Args[0]) && !isOld(call.Call.Args[1]):
-				insert = "append"
+			return aiVal{}, false
+		}
+		out := ai.run(look.Blocks[0], nil, 0)
+		if out.kind != "return" || len(out.ret) != 1 {
+			return "", "Lookup: " + out.why
+		}
+		switch out.ret[0].kind {
+		case "nil":
+			return "nil", ""
+		case "sym":
+			return out.ret[0].s, ""
+		}
+		return "", "Lookup returns a value outside the model"
+	}
+	l1, why := register(aiVal{kind: "list"}, "A")
+	var l2 aiVal
+	if why == "" {
+		l2, why = register(l1, "B")
+	}
+	if why != "" {
+		o.undecided(key, c.Pos(add.Pos()), why)
+		return o.list
+	}
+	bad := ""
+	for _, sc := range []struct {
+		inA, inB bool
+		want     string
+	}{{true, true, "refB"}, {true, false, "refA"}, {false, true, "refB"}, {false, false, "nil"}} {
+		got, why := lookup(l2, sc.inA, sc.inB)
+		if why != "" {
+			o.undecided(key, c.Pos(look.Pos()), why)
+			return o.list
+		}
+		if got != sc.want && bad == "" {
+			if sc.inA && sc.inB {
+				bad = fmt.Sprintf("after registering A and then B over the same character above the table boundary, Lookup answers %s: the OLDEST covering registration wins there, while the table below the boundary gives the latest", got)
+			} else {
+				bad = fmt.Sprintf("with A covering: %v and B covering: %v, Lookup answers %s instead of %s", sc.inA, sc.inB, got, sc.want)
 			}
 		}
 	}
-	// search direction: range index ascending with a return inside the match branch = forward, first hit
-	search := ""
-	for _, b := range look.Blocks {
-		for _, in := range b.Instrs {
-			phi, ok := in.(*ssa.Phi)
-			if !ok || phi.Comment != "rangeindex" {
-				continue
-			}
-			search = "forward"
-			// the match branch returns at once?
-			firstHit := false
-			for _, blk := range look.Blocks {
-				for _, ins := range blk.Instrs {
-					if call, ok := ins.(*ssa.Call); ok {
-						if _, isIn := c.callTo(call, pkgUtil, "CharReferenceInterval", "InRange"); isIn {
-							if ifi, ok := blk.Instrs[len(blk.Instrs)-1].(*ssa.If); ok && ifi.Cond == ssa.Value(call) {
-								if _, isRet := blk.Succs[0].Instrs[len(blk.Succs[0].Instrs)-1].(*ssa.Return); isRet {
-									firstHit = true
-								}
-							}
-						}
-					}
-				}
-			}
-			if firstHit {
-				search = "forward-first"
-			}
-		}
-	}
-	if search == "" {
-		// explicit index loops: descending counter
-		for _, b := range look.Blocks {
-			for _, in := range b.Instrs {
-				if bo, ok := in.(*ssa.BinOp); ok && bo.Op == token.SUB {
-					if k, isK := constInt(bo.Y); isK && k == 1 {
-						if _, isPhi := bo.X.(*ssa.Phi); isPhi {
-							search = "backward-first"
-						}
-					}
-				}
-			}
-		}
-	}
-	good := (insert == "prepend" && search == "forward-first") || (insert == "append" && search == "backward-first")
-	if good {
-		o.ok(key, c.Pos(add.Pos()), fmt.Sprintf("intervals are inserted by %s and searched %s: the latest covering registration is found first", insert, search))
-	} else if insert == "" || search == "" {
-		o.undecided(key, c.Pos(add.Pos()), fmt.Sprintf("insertion (%q) or search order (%q) not recognised", insert, search))
+	if bad != "" {
+		o.bad(key, c.Pos(add.Pos()), bad)
 	} else {
-		o.bad(key, c.Pos(add.Pos()), fmt.Sprintf("intervals are inserted by %s but searched %s: for characters above the table boundary the OLDEST covering registration wins, while the table below the boundary gives the latest", insert, search))
+		o.ok(key, c.Pos(add.Pos()), "2 abstract registrations and 4 abstract lookups: above the table boundary the latest covering registration is found first")
 	}
 	return o.list
 }
